@@ -1,6 +1,7 @@
 // Unit `service_time` (C29): Service::timestamp and the real Timestamp arithmetic.
 use vstd::prelude::*;
 use std::ops::{Add, Deref, Sub};
+use std::collections::HashSet;
 //@include _prelude.rs
 
 verus! {
@@ -17,9 +18,34 @@ impl LocalTime {
 }
 pub struct Config;
 pub struct Device<G>(G);
-pub struct Stores<D>(D);
 pub trait Store {}
-pub trait ReadStorage {}
+#[derive(Clone, Copy, PartialEq, Eq, Debug)] pub struct NodeId(pub [u8; 32]);
+#[derive(Clone, Copy, PartialEq, Eq, Debug)] pub struct RepoId(pub [u8; 20]);
+pub struct Error;
+pub mod routing {
+    pub struct Error; pub struct Store; pub enum InsertResult { SeedAdded, TimeUpdated, NotUpdated }
+    impl Store {
+        #[verifier::external_body] pub fn add_inventory(&mut self, rids: [&crate::RepoId; 1], nid: crate::NodeId, t: crate::Timestamp) -> Result<Vec<(crate::RepoId, InsertResult)>, Error> { unimplemented!() }
+        #[verifier::external_body] pub fn remove_inventory(&mut self, rid: &crate::RepoId, nid: &crate::NodeId) -> Result<bool, Error> { unimplemented!() }
+        #[verifier::external_body] pub fn get_inventory(&self, nid: &crate::NodeId) -> Result<std::collections::HashSet<crate::RepoId>, Error> { unimplemented!() }
+    }
+}
+impl From<routing::Error> for Error { #[verifier::external_body] fn from(e: routing::Error) -> Self { unimplemented!() } }
+pub struct StorageError;
+impl From<StorageError> for Error { #[verifier::external_body] fn from(e: StorageError) -> Self { unimplemented!() } }
+pub struct Stores<D>(D);
+impl<D> Stores<D> {
+    #[verifier::external_body] pub fn routing_mut(&mut self) -> &mut routing::Store { unimplemented!() }
+    #[verifier::external_body] pub fn routing(&self) -> &routing::Store { unimplemented!() }
+}
+pub trait ReadStorage { fn contains(&self, rid: &RepoId) -> Result<bool, StorageError>; }
+pub struct InventoryAnnouncement { pub timestamp: Timestamp }
+pub mod gossip {
+    use vstd::prelude::*;
+    /// builds the inventory message that `announce_inventory` signs: carries the given timestamp
+    #[verifier::external_body]
+    pub fn inventory(timestamp: crate::Timestamp, inv: std::collections::HashSet<crate::RepoId>) -> (r: crate::InventoryAnnouncement) ensures r.timestamp == timestamp { unimplemented!() }
+}
 pub mod crypto {
     pub struct Signature;
     pub mod signature { pub trait Signer<T> {} }
@@ -72,7 +98,7 @@ impl vstd::std_specs::convert::FromSpecImpl<LocalTime> for Timestamp {
 //@extract crates/radicle-node/src/service.rs
 //@  item struct Service
 //@    derive
-//@    fields config, signer, storage, db, clock, last_timestamp
+//@    fields config, signer, storage, db, clock, last_timestamp, inventory
 //@  impl <D, S, G> Service<D, S, G> where D: Store, S: ReadStorage + 'static, G: crypto::signature::Signer<crypto::Signature>,
 //@    fn timestamp
 //@      ret r
@@ -83,6 +109,29 @@ impl vstd::std_specs::convert::FromSpecImpl<LocalTime> for Timestamp {
 //@        r.ms() > old(self).last_timestamp.ms()
 //@        r.ms() >= old(self).clock.ms
 //@        final(self).clock == old(self).clock
+//@    add
+//@      #[verifier::external_body] pub fn node_id(&self) -> NodeId { unimplemented!() }
+//@      #[verifier::external_body] pub fn nid(&self) -> &NodeId { unimplemented!() }
+//@      /// signs and sends the cached inventory message (`self.inventory`); at most once per timestamp (it compares with
+//@      /// `last_inventory`): does not issue timestamps
+//@      #[verifier::external_body]
+//@      fn announce_inventory(&mut self) ensures final(self).last_timestamp == old(self).last_timestamp { unimplemented!() }
+//@    fn inventory
+//@      desugar_try
+//@      body_sub (?s)self\.db\s*\.routing\(\)\s*\.get_inventory\(self\.nid\(\)\)\s*\.map_err\(Error::from\) => self.db.routing().get_inventory(self.nid()).map_err(|e| -> (o: Error) { Error::from(e) })
+//@    fn refresh_and_announce_inventory
+//@      desugar_try
+//@      requires
+//@        # C29: the inventory message about to be signed carries the timestamp that was issued last (by Service::timestamp)
+//@        time == old(self).last_timestamp //[C29]
+//@    fn add_inventory
+//@      desugar_try
+//@      requires
+//@        old(self).last_timestamp.ms() < u64::MAX
+//@    fn remove_inventory
+//@      desugar_try
+//@      requires
+//@        old(self).last_timestamp.ms() < u64::MAX
 //@end
 
 // ---- history lemma ---------------------------------------------------------------------
